@@ -14,11 +14,13 @@ def run(ctx):
         F.bam_pace(ctx, L)
         from rules import timing as TM
         TM.wakeup_min(ctx, L.job, tag=L.tag + " ")
+        TM.wakeup_cover(ctx, L)
     ctx.rule("R-GRANT-MIN", "CTS grant = min(own maximum, RTS window, remaining)", floor=6)
     ctx.rule("R-CTS-BORDER", "responder window bookkeeping is mutually consistent", floor=4)
     ctx.rule("R-DT-TYPESTATE", "DT only in a sending state entered by a non-zero CTS", floor=8)
     ctx.rule("R-HOLD", "zero-packet CTS only extends the wait", floor=2)
     ctx.rule("R-WINDOW-AFFINE", "packets per CTS = granted count", floor=4)
     ctx.rule("R-WAKEUP-MIN", "the job pass wakes for the earliest pending packet time (upper pacing bound)", floor=8)
+    ctx.rule("R-WAKEUP-COVER", "every new packet time set by a job pass reaches that pass's next wake-up (no path skips the recalculation)", floor=6)
     ctx.rule("R-BAM-PACE", "one BAM DT per expiry, spaced by the configured interval", floor=8)
     return "flow-control and pacing clauses of C09 decided on both data link layers"
